@@ -10,6 +10,7 @@ import (
 	"strings"
 	"sync"
 	"testing"
+	"time"
 
 	"github.com/openbao/openbao/sdk/v2/helper/verifx"
 	"github.com/openbao/openbao/sdk/v2/logical"
@@ -111,7 +112,7 @@ func newC11Env(t *testing.T, ndev int) *c11Env {
 }
 
 func TestVerif_C11_BrokerOrder(t *testing.T) {
-	rec := verifx.NewRecorder("C11", "broker-order", "a core with 1-3 scripted audit devices and a recording backend; each request (echo returning a canary, kv read of a canary, leased secret, kv write, list) draws for every device and for both phases (request entry, response entry) one of accept / error / panic; oracle on a global logical clock: a backend invocation implies an earlier accepted request entry of that request; response data reaching the client implies an accepted response entry; if every device failed the request entry there is no invocation and the client gets an error without the canary; if every device failed the response entry the client gets an error without the canary; with at least one accept and a panic either outcome is allowed; non-trivial = at least one failing device in either phase")
+	rec := verifx.NewRecorder("C11", "broker-order", "a core with 1-3 scripted audit devices and a recording backend; each request (echo returning a canary, kv read of a canary, leased secret, kv write, list) draws for every device and for both phases (request entry, response entry) one of accept / error / panic; oracle on a global logical clock: a backend invocation implies an earlier accepted request entry of that request; response data reaching the client implies an accepted response entry; if every device failed the request entry there is no invocation and the client gets an error without the canary; if every device failed the response entry the client gets an error without the canary; with at least one accept and a panic either outcome is allowed; in a third of the cases the client's context ends before the request, inside the existence check (between token check and request audit) or inside the handler (before the response audit): the same implications must hold; non-trivial = at least one failing device in either phase, or an ended client context")
 	defer rec.Flush()
 	envs := map[int]*c11Env{}
 	defer func() {
@@ -161,11 +162,43 @@ func TestVerif_C11_BrokerOrder(t *testing.T) {
 		case "list":
 			req = &logical.Request{Operation: logical.ListOperation, Path: "rb/kv/", ClientToken: e.tok}
 		}
+		// the client may go away while its request is being processed: its context ends before the request, inside
+		// the backend's existence check (i.e. between the token check and the request audit) or inside the handler
+		// (before the response audit). None of this may let a request through unaudited.
+		cancelAt := []string{"never", "never", "never", "exist", "handle", "before"}[fairIndex(rt, "clientContextEnds", 6)]
+		ctx, cancel := context.WithCancel(tc.ctx)
+		defer cancel()
+		if cancelAt == "before" {
+			cancel()
+		}
+		cancelled := false
+		e.hub.mu.Lock()
+		e.hub.hook = func(stage string, bctx context.Context, r *logical.Request) {
+			if stage != cancelAt || !strings.HasPrefix(r.Path, strings.TrimPrefix(req.Path, "rb/")) {
+				return
+			}
+			cancel()
+			cancelled = true
+			// wait until the cancellation has reached the context the core runs the request with
+			select {
+			case <-bctx.Done():
+			case <-time.After(2 * time.Second):
+			}
+		}
+		e.hub.mu.Unlock()
 		e.ah.mu.Lock()
 		e.ah.script, e.ah.events, e.ah.active = script, nil, true
 		e.ah.mu.Unlock()
 		callsBefore := len(e.hub.handlerCalls())
-		res := tc.do(req)
+		res := tc.doCtx(ctx, req)
+		e.hub.mu.Lock()
+		e.hub.hook = nil
+		e.hub.mu.Unlock()
+		if cancelAt == "before" || cancelled {
+			rec.Class("client-context-ended:"+cancelAt, 1)
+		} else {
+			cancelAt = "never"
+		}
 		e.ah.mu.Lock()
 		e.ah.active = false
 		events := append([]c11Event(nil), e.ah.events...)
@@ -201,9 +234,9 @@ func TestVerif_C11_BrokerOrder(t *testing.T) {
 		for i, ev := range events {
 			evs[i] = fmt.Sprintf("#%d %s %s %s", ev.seq, ev.dev, ev.phase, ev.outcome)
 		}
-		detail := map[string]any{"devices": ndev, "kind": kind, "script": fmt.Sprint(script), "audit_events": evs, "invocations": len(invoked), "result": res.String(), "canary_in_response": leaked}
+		detail := map[string]any{"devices": ndev, "kind": kind, "client_context_ended": cancelAt, "script": fmt.Sprint(script), "audit_events": evs, "invocations": len(invoked), "result": res.String(), "canary_in_response": leaked}
 		carries := kind == "echo" || kind == "kvread" || kind == "secret"
-		rec.Case(fmt.Sprintf("devs=%d", ndev), failing, verifx.Digest(ndev, kind, fmt.Sprint(script)), func() any { return detail })
+		rec.Case(fmt.Sprintf("devs=%d", ndev), failing || cancelAt != "never", verifx.Digest(ndev, kind, cancelAt, fmt.Sprint(script)), func() any { return detail })
 		// (1) invocation implies an earlier accepted request entry
 		for _, c := range invoked {
 			if acc["req"] == 0 || firstAccept["req"] > c.Seq {
@@ -238,7 +271,7 @@ func TestVerif_C11_BrokerOrder(t *testing.T) {
 			}
 		}
 		// (4) no failure scripted at all => the request must succeed (an always-refuse broker cannot pass)
-		if !failing && (!res.ok() || len(invoked) != 1) {
+		if !failing && cancelAt == "never" && (!res.ok() || len(invoked) != 1) {
 			rec.Violation(rt, "request-refused-although-audit-ok", detail, "all devices accept but the request failed (%v, invocations %d) | %v", res, len(invoked), detail)
 		}
 		if pan["req"]+pan["resp"] > 0 {
